@@ -647,6 +647,7 @@ static int32_t tls13WriteServerKeyShare(ssl_t *ssl,
         rc = tls13ServerChooseHelloRetryRequestGroup(ssl, &namedGroup);
         if (rc < 0)
         {
+            psDynBufUninit(&keyShareBuf);
             return rc;
         }
     }
@@ -664,6 +665,7 @@ static int32_t tls13WriteServerKeyShare(ssl_t *ssl,
         rc = tls13GenerateEphemeralKeys(ssl);
         if (rc < 0)
         {
+            psDynBufUninit(&keyShareBuf);
             return rc;
         }
 
@@ -680,6 +682,7 @@ static int32_t tls13WriteServerKeyShare(ssl_t *ssl,
                 &pubValLen);
         if (rc < 0)
         {
+            psDynBufUninit(&keyShareBuf);
             return rc;
         }
 
@@ -694,6 +697,7 @@ static int32_t tls13WriteServerKeyShare(ssl_t *ssl,
     extensionData = psDynBufDetach(&keyShareBuf, &extensionDataLen);
     if (extensionData == NULL)
     {
+        psDynBufUninit(&keyShareBuf);
         return PS_MEM_FAIL;
     }
 
@@ -886,6 +890,7 @@ int32_t tls13WritePreSharedKey(ssl_t *ssl,
         psBool_t isHelloRetryRequest)
 {
     psDynBuf_t pskBuf, idBuf, binderBuf;
+    psBool_t haveListBufs = PS_FALSE;
     unsigned char extensionType[2] = { 0x00, EXT_PRE_SHARED_KEY };
     unsigned char *extensionData;
     psSize_t extensionDataLen;
@@ -930,6 +935,7 @@ int32_t tls13WritePreSharedKey(ssl_t *ssl,
         psAssert(psk != NULL);
         psDynBufInit(ssl->hsPool, &idBuf, 128);
         psDynBufInit(ssl->hsPool, &binderBuf, 128);
+        haveListBufs = PS_TRUE;
         while (psk != NULL)
         {
 	    /* Don't try to offer a PSK that is associated with a hash
@@ -1013,6 +1019,12 @@ int32_t tls13WritePreSharedKey(ssl_t *ssl,
     return PS_SUCCESS;
 
 out_internal_failure:
+    if (haveListBufs)
+    {
+        psDynBufUninit(&idBuf);
+        psDynBufUninit(&binderBuf);
+    }
+    psDynBufUninit(&pskBuf);
     ssl->err = SSL_ALERT_INTERNAL_ERROR;
     return MATRIXSSL_ERROR;
 }
@@ -1219,6 +1231,8 @@ int32_t tls13WritePskKeyExchangeModes(ssl_t *ssl,
     return PS_SUCCESS;
 
 out_internal_failure:
+    psDynBufUninit(&modesBuf);
+    psDynBufUninit(&buf);
     ssl->err = SSL_ALERT_INTERNAL_ERROR;
     return MATRIXSSL_ERROR;
 }
